@@ -12,3 +12,57 @@ Theorem fixed_cfg_is_the_source :
   ready_on_error fixed_cfg = gen_ready_on_error /\ close_on_cancel fixed_cfg = gen_close_on_cancel /\
   accept_retry fixed_cfg = gen_accept_retry /\ untrack_late fixed_cfg = gen_untrack_late.
 Proof. repeat split; reflexivity. Qed.
+
+(* The control-flow skeleton the LTS was written against.  Each line says which piece of
+   Sys.v stands for it; `vh cfgflags` counts the same things in the source on every run.
+
+   Stop (Sys.stop_step: SStart, SCancel, SInterrupt, SWait, SRet)
+     2 ways out before connWg.Wait: "nothing to do" when Run was never called (SStart with
+       lst = NotCreated goes on to SCancel and finds connwg = 0: the same observable), and the
+       error of a listener Close that is not "already closed" (not modelled: TCP listeners do
+       not fail to close; trusted base).  A third way out would be a Stop that returns without
+       waiting - the LTS has none.
+     3 returns in all (the last one after Wait = SRet), no goroutine started by Stop.
+   Run (Sys.run_step: RListen, RLoop, RAccepted, RRet)
+     6 returns outside the connection goroutine: invalid address / failed listen (RRet true),
+       cancelled context at the top of the loop (RRet false), Accept on a closed listener
+       (RRet false), a permanent Accept error (accept_failed, RRet true), newConn error (cannot
+       happen with a non-nil conn and router; trusted), and the options error before listening.
+     1 go statement: the connection goroutine (conn_step), whose body has 2 early returns
+       (failed deadline setting: not modelled, trusted) and a deferred teardown without returns
+       (teardown_of: wait for handlers, close, untrack, OnClose, Done - in the order the flags give).
+   serveRequests (Sys.conn_step at CRead / CDispatch)
+     7 returns: writer creation error, the two errors and the normal end of the shutdown notice
+       (cancelled context between two reads), EOF, read error (IBad), Unbind; 1 go statement:
+       the per-request goroutine (req_step); 3 dispatch cases: Unbind (KUnbind, inline, ends the
+       loop), StartTLS (KStartTLS, inline), everything else (KNormal, its own goroutine).
+   Deadlines: Run sets the configured read / write timeout once per connection, interrupt()
+     expires both directions (interrupt_all), serveRequests shortens the read deadline after
+     the notice of disconnection.  Nothing else touches a deadline: Stop's interrupt is final
+     (an [interrupted] conn stays interrupted in every step of Sys.v).
+   No package-level channels, pools, locks or atomics: connections share only what the LTS
+     state holds (listener, wait group, connection table, mux). *)
+Require Import Coq.Strings.String Coq.Lists.List.
+Import ListNotations.
+Open Scope string_scope.
+
+Definition modelled_skeleton : list (string * nat) := [
+  ("Stop.returns_before_wait", 2);
+  ("Stop.returns", 3);
+  ("Run.returns", 6);
+  ("Run.conn_goroutine.returns", 2);
+  ("Run.conn_goroutine.teardown.returns", 0);
+  ("serveRequests.returns", 7);
+  ("serveRequests.dispatch_cases", 3);
+  ("Run.go_statements", 1);
+  ("serveRequests.go_statements", 1);
+  ("Stop.go_statements", 0);
+  ("deadline:Run.SetReadDeadline", 1);
+  ("deadline:Run.SetWriteDeadline", 1);
+  ("deadline:interrupt.SetDeadline", 1);
+  ("deadline:serveRequests.SetReadDeadline", 1);
+  ("package_level_sync_state", 0)
+].
+
+Theorem skeleton_is_the_source : gen_skeleton = modelled_skeleton.
+Proof. reflexivity. Qed.
